@@ -39,6 +39,45 @@ LEVEL = {
             'scores are judged on the computed (rounded) score.', '6 C11'),
 }
 
+LEVEL.update({
+    'C05': ('proof', 'Theorems: the container state machine for an arbitrary timing function (success after exactly the '
+            'summed tick count with the documented operator/memory/can_suspend timeline; OOM in exactly the first '
+            'over-limit tick, earlier operators completed, current and later failed) and the tick arithmetic for rnd64 '
+            '(float quotient within 4*2^-53 of x, equal to floor(x) away from boundaries, growing memory within rounding '
+            'of 20 GB/s, one-tick minimum); scaling laws and the source expressions are bridge-checked against the code; '
+            'Timing.v is compared bit-exactly with the real Container on all laws, tick rates 1..100000. Partial: '
+            'np.log/np.sqrt values are a table taken from numpy.', '6 C05'),
+    'C06': ('proof', 'Refinement of the run_simulator bookkeeping to an independent recount of the event log (counters, '
+            'per-class partition, latency lists, completed-once) for every run of the model loop; correspondence of whole '
+            'runs incl. the returned SimulatorStats for all shipped schedulers. Partial: numpy mean/percentile rounding '
+            '(tolerance 1e-9).', '6 C06'),
+    'C08': ('proof', 'Per-round admissibility theorems for the shipped policies (naive/starter/overbook: no oversell, pool '
+            'range, operator count; scheduler functions total under stated invariants) and totality of the statistics '
+            'epilogue; the closed-loop claim "never raises" is decided by correspondence of whole runs at scale (the '
+            'implementation must return normally exactly when the model does) plus the monitor. Partial: closed-loop '
+            'safety for priority/priority-pool is not a theorem. One recorded finding (priority-pool in single-operator mode).',
+            '6 C08'),
+    'C12': ('proof', 'Per-round contracts of the priority policy from every queue/pool state: scan is a queue prefix, stops '
+            'only on depletion, strict class order, work conservation w.r.t. the post-batch snapshot, suspension rules, '
+            'suspended work re-offered; correspondence on contended runs with preemption. ', '6 C12'),
+    'C14': ('proof', 'Cell-level theorems for all row lists / all well-formed pipelines: read(write ps) = ps, write(read rows) '
+            '= rows for writer-format files, every listed malformation refused, acceptance iff the rules hold; '
+            'correspondence through the real csv reader/writer incl. malformed and benign variations. Partial: csv module '
+            'quoting and float text round trip are below the model (exercised, not proved).', '6 C14'),
+    'C16': ('proof', 'Per-round contracts of priority-pool (pool by class, never suspends, retry of exactly the unfinished '
+            'operators together, 50% cut-off) from every state; correspondence on two-pool runs with OOM retries.', '6 C16'),
+    'C17': ('proof', 'Per-round contracts of naive and of the starter template (one container per pool with everything free, '
+            'FIFO for fresh pipelines, never after a failure, single ready operator in single mode, no suspension); '
+            'correspondence on multi-pool runs incl. the scheduler generated by `eudoxia init`.', '6 C17'),
+    'C18': ('proof', 'Per-round contracts of overbook (one ready operator, one CPU, pool RAM; CPU-bound; nothing waits while '
+            'a CPU is free; abandoned after three failures, for all later rounds); correspondence on overcommitted runs.',
+            '6 C18'),
+    'C20': ('proof', 'Theorems for snap (exact: never up, less than a tick, grid fixed, idempotent; float-faithful rnd64: '
+            'loop post-conditions, grid-fixed, idempotent, fuel suffices), jitter (bounds, sorted, stable, frame) and the '
+            'sensitivity-sample seed plumbing; bridge obligations on the source statements; correspondence through the '
+            'real tools. Partial: reproducibility per seed relies on numpy (monitor).', '6 C20'),
+})
+
 NOTES = {
     'C04': 'exact-arithmetic theorems; float drift measured (tolerance 1e-6 GB); memory demands are Python floats',
     'C11': 'score compared as computed by the code (two float operations); monitor ignores relative score gaps < 1e-9',
